@@ -208,7 +208,8 @@ func GetNode(children []*Node, path string) (*Node, bool) {
 	for _, node := range children {
 		if node.Name == searchName {
 			if len(node.Children) == 0 {
-				return node, true
+				// a file has nothing beneath it
+				return node, len(pathSplit) == 1
 			}
 			if len(pathSplit) > 1 {
 				return GetNode(node.Children, pathSplit[1])
